@@ -71,7 +71,7 @@ def oracle(name, ib, mb, meta):
             kv = dict(t.split('=', 1) for t in b.op.split()[2:]); mtu = int(kv.get('mtu', mtu)); own = bytes.fromhex(kv.get('mac', own.hex()))
             if kv.get('mtufail') == '1' or mtu == 0: mtu = 1500 if 'c06' != 'c06' else -1   # getter fails: the responder assumes 1500 (an Emit is dropped)
         if not b.op.startswith('frame 0 ') or b.fault: continue
-        ctx, fr = frame_of(b); d = dec(fr + bytes(max(0, 36 - len(fr))))
+        ctx, fr = frame_of(b); d = dec(rxview(b, fr))
         fill = int(b.op.split()[2], 16)
         # who the mapper is, from the frames alone (as C05 prescribes): the first Discover of a discovery service while
         # no mapper is active; released by a Reset; left open ('?') once a command of a station that is not the mapper arrived
@@ -120,7 +120,7 @@ def count(name, lines, ib, stats, meta):
     for b in ib:
         if b.op.startswith('cfg 0'): mtu = int(dict(t.split('=', 1) for t in b.op.split()[2:])['mtu'])
         if not b.op.startswith('frame 0 '): continue
-        ctx, fr = frame_of(b); d = dec(fr + bytes(max(0, 36 - len(fr))))
+        ctx, fr = frame_of(b); d = dec(rxview(b, fr))
         if d['opc'] != 2: continue
         stats['evaluations'] += 1
         cap = (mtu - 34) // 14; n = (d['body'][0] << 8) | d['body'][1]
